@@ -99,7 +99,7 @@ def judge_twin(name, seed, seq, fresh_envs=True):
             return f'debug flag off changes the trajectory at operation {i} ({op} {a or ""}): {which} differ'
     # an environment that has been USED (odd / even number of earlier draws) and is then given the seed behaves like a
     # fresh one with that seed
-    for prior in (1, 2):
+    for prior in (0, 1, 2):
         used = envs.slot(name, ('used', prior), seed + 77)
         used.reset()
         acts0 = list(used.action_space.actions)
@@ -310,6 +310,39 @@ def judge_hashorder(fn_name, params, colours, seed):
     return None
 
 
+# ---------------------------------------------------------------- 5b: reset functions under both debug settings
+def judge_reset_debug(name, params, seed):
+    """the same reset call with the same seed gives the same state whether the library's debug checks are on or off
+    (a check that draws from the generator, or consumes what the sampling step reads, shifts the stream)"""
+    from .. import resets as RSX
+    outs = []
+    for dbg in (True, False):
+        reset_gv_debug(dbg)
+        try:
+            res = RSX.call(name, params, np.random.default_rng(seed))
+        finally:
+            reset_gv_debug(True)
+        outs.append(None if isinstance(res, tuple) else sdesc(res))
+    if outs[0] is None or outs[1] is None:
+        # rejections are C13's subject; here only two accepted calls are compared
+        return None
+    if outs[0] != outs[1]:
+        return f'{name}({params}) with seed {seed}: the initial state depends on the debug flag'
+    return None
+
+
+def _reset_debug_work(job):
+    n = 0
+    fails = []
+    for name, params, seed in job:
+        n += 1
+        m = judge_reset_debug(name, params, seed)
+        if m and len(fails) < 2:
+            fails.append({'kind': 'reset_debug', 'name': name, 'params': params, 'seed': int(seed), 'message': m,
+                          'sig': {'part': 'reset_debug', 'fn': name}})
+    return n, fails
+
+
 # ---------------------------------------------------------------- 6: hash order across processes
 def run_hashworker(hashseed, seeds, names):
     env = dict(os.environ)
@@ -343,6 +376,8 @@ def replay(case):
     if k == 'hashorder':
         return judge_hashorder(case['fn'], {kk: (tuple(v) if isinstance(v, list) else v) for kk, v in case['params'].items()},
                                case['colours'], case['seed'])
+    if k == 'reset_debug':
+        return judge_reset_debug(case['name'], {kk: (tuple(v) if isinstance(v, list) else v) for kk, v in case['params'].items()}, case['seed'])
     if k == 'hashproc':
         return judge_hashproc(case['config'], case['seed'], case['hashseeds'])
     raise ValueError(k)
@@ -354,12 +389,12 @@ def run(rep, tier, seed):
     zero_seeds = [0, np.int64(0)]  # falsy seeds are seeds too
     all_names = [n for n, _ in configs.all_configs()] + ['synthetic']
     if tier == 'quick':
-        twin_cfg = [('synthetic', 3), ('teleport.5x5', 3), ('dynamic_obstacles.5x5', 3), ('keydoor.5x5', 2), ('memory.5x5', 2),
+        twin_cfg = [('synthetic', 3), ('synthetic_det', 2), ('teleport.5x5', 3), ('dynamic_obstacles.5x5', 3), ('keydoor.5x5', 2), ('memory.5x5', 2),
                     ('crossing.5x5', 2), ('empty.4x4', 2), ('four_rooms.7x7', 2), ('memory_four_rooms.7x7', 2), ('teleport.7x7', 2),
                     ('dynamic_obstacles.7x7', 2), ('keydoor.7x7', 2), ('crossing.7x7', 2)]
         twin_seeds = seeds[:2] + zero_seeds[:1]
     else:
-        twin_cfg = [(n, 4 if n in ('synthetic', 'teleport.5x5', 'dynamic_obstacles.5x5') else 3) for n in all_names]
+        twin_cfg = [(n, 4 if n in ('synthetic', 'teleport.5x5', 'dynamic_obstacles.5x5') else 3) for n in all_names + ['synthetic_det']]
         twin_seeds = seeds + zero_seeds
     jobs = []
     for name, depth in twin_cfg:
@@ -420,7 +455,17 @@ def run(rep, tier, seed):
                 if m:
                     fails.append({'kind': 'hashorder', 'fn': fn_name, 'params': params, 'colours': colours, 'seed': sd, 'message': m,
                                   'sig': {'part': 'hash_order', 'fn': fn_name}})
-    rep.part('hash_order_in_process', calls=hn, permutations='all n! iteration orders of the colour set, n in 2..4')
+    # reset functions over the bounded parameter grid, debug flag on vs off
+    from .. import resets as RSX
+    rpts = [(n, p) for n, p in RSX.parameter_points(tier) if p['shape'][0] * p['shape'][1] <= (49 if tier == 'quick' else 81)]
+    rjobs = [(n, p, sd) for n, p in rpts for sd in (seeds[:2] if tier == 'quick' else seeds)]
+    rn = 0
+    for n, fl in pmap(_reset_debug_work, [rjobs[i::64] for i in range(64)]):
+        rn += n
+        fails.extend(fl)
+    hn += rn
+    rep.part('reset_functions_debug_on_off', calls=rn, parameter_points=len(rpts))
+    rep.part('hash_order_in_process', calls=hn - rn, permutations='all n! iteration orders of the colour set, n in 2..4')
     # across processes
     hashseeds = [0, 1, 2] + ([3, 4, 100 + seed] if tier != 'quick' else [100 + seed])
     names = all_names if tier != 'quick' else ['memory.5x5', 'memory_four_rooms.7x7', 'keydoor.5x5', 'teleport.5x5', 'synthetic',
